@@ -4,8 +4,9 @@ from .. import core, wsgen
 from .common import Run, split_spec, all_flags, corpus_cases, generic_replay, parse_list
 
 PROP = "C08"
-MODULE = "PLS.Props.C08"
-THEOREMS = ["PLS.C08_resolve_perm", "PLS.C08_ownDefAt_perm", "PLS.C08_same_file_last", "PLS.C08_statement_false"]
+MODULE = "PLS.Props.C14P"      # imports PLS.Props.C08
+THEOREMS = ["PLS.C08_resolve_perm", "PLS.C08_ownDefAt_perm", "PLS.C08_same_file_last", "PLS.C08_statement_false",
+            "PLS.C08_plugin_files_order_independent", "PLS.C14_plugin_files_are_the_closure", "PLS.ScanC.importScan_closed"]
 RULE = ("each generated workspace (colliding fixture names by construction) is indexed under several permutations of "
         "the per-file analysis order, with analyze_file and with the scan's no-cleanup path; the full answer "
         "battery (go-to-definition at every column of usage-bearing lines, references per definition, available "
